@@ -43,7 +43,7 @@ def _row_cover(prog: Program, res: Result, fn: FuncInfo, n_name_hint: str | None
     dms = [s for s in body_walk(fn.node) if isinstance(s, ast.Assign) and isinstance(s.value, ast.Call) and dotted(s.value.func) == "divmod"
            and isinstance(s.targets[0], ast.Tuple) and len(s.targets[0].elts) == 2 and norm(s.value.args[0]) == "start"]
     key = f"{tag}:divmod"
-    if len(dms) != 1 or norm(dms[0].value.args[1]) != "self.sub_hdr.subint_samples":
+    if len(dms) != 1 or norm(flow.expand(dms[0].value.args[1], cfg.node_for(dms[0]))) != "self.sub_hdr.subint_samples":
         res.bad("R1", fn, fn.node, "start is not split into (row, offset) by divmod(start, sub_hdr.subint_samples)", construct=tag, key=key)
         return
     row, off = (norm(e) for e in dms[0].targets[0].elts)
@@ -274,10 +274,14 @@ def run(prog: Program, res: Result, tier: str) -> None:
     # ---- R3 plain header fields ------------------------------------------------------------------------
     fp = prog.func(HEADER, "Header.from_pfits")
     hdr = prog.cls(HEADER, "Header")
-    upd = [s for s in body_walk(fp.node) if isinstance(s, ast.Assign) and norm(s.targets[0]) == "hdr_update"]
+    # the literal mapping of Header fields, whatever it is called and however it reaches cls(**...): the dict literal of the
+    # function with the most Header-field keys
+    cands = [s for s in body_walk(fp.node) if isinstance(s, (ast.Assign, ast.AnnAssign)) and isinstance(s.value, ast.Dict)
+             and dict_literal_keys(s.value) is not None]
+    upd = sorted(cands, key=lambda s: -sum(1 for k in dict_literal_keys(s.value) if k in hdr.fields))[:1]
     d = dict_literal_keys(upd[0].value) if upd else None
-    if d is None:
-        raise AnalysisError("from_pfits: literal hdr_update dict not found")
+    if d is None or not any(k in hdr.fields for k in d):
+        raise AnalysisError("from_pfits: literal mapping of Header fields not found")
     required = [n for n in hdr.attrs_fields if hdr.fields[n].value is None]
     miss = sorted(set(required) - set(d))
     (res.ok if not miss else res.bad)("R3", fp, upd[0], f"all {len(required)} required Header fields are supplied" if not miss else
